@@ -280,6 +280,24 @@ def both_outcomes_handled(ctx):
         and len(waited) == 2 and all(w is not None for w in waited) and waited[0] is not waited[1]
     ctx.ob(f, f'wait([parts_future, io_future], return_when={rw.split(".")[-1]})', ok,
            'the download must not return before both the part fetcher and the IO writer finished without error: a late write error would be lost and a truncated file published')
+    # the part fetchers run through executor.map: its results must be consumed, that is where a fetcher's exception surfaces
+    # (an unconsumed map iterator swallows every part failure: the parts future "succeeds", the truncated temp file is renamed)
+    nmap = 0
+    for m in [x for x in ctx.p.all_functions() if x.module.name == '__init__']:
+        for c in own_calls(m.node):
+            if not (isinstance(c.func, ast.Attribute) and c.func.attr == 'map' and c.args and 'executor' in norm(c.func.value).lower()):
+                continue
+            nmap += 1
+            par = c._parent
+            # handed to something (list(), parts.extend(), a loop, a comprehension, a return): taken as iterated there;
+            # a bare expression statement, or a local that is never read again, is the unconsumed form
+            consumed = not isinstance(par, ast.Expr)
+            if isinstance(par, ast.Assign) and len(par.targets) == 1 and isinstance(par.targets[0], ast.Name):
+                nm = par.targets[0].id
+                consumed = any(isinstance(x, ast.Name) and x.id == nm and isinstance(x.ctx, ast.Load) for x in own_nodes(m.node))
+            ctx.ob(m, c, consumed, 'the results of executor.map are never iterated: exceptions raised by the mapped part transfers are never retrieved, '
+                                   'so a failed part goes unnoticed and the incomplete result is published as success')
+    ctx.need(nmap >= 2, f'only {nmap} executor.map sites found in the legacy module')
     # on the fully expanded download_file: .result() of every finished future, unconditionally, after the wait
     xf = ctx.expanded().func('__init__.MultipartDownloader.download_file')
     xg = ctx.expanded().cfg(xf)
